@@ -416,3 +416,133 @@ def parser_task(fixed, order_vars):
     rec.update(d.stats())
     d.close()
     return rec
+
+
+# ------------------------------------------------------------------ C16 part 2: one inductive step of the unique table
+def bits_choice(prefix, options):
+    """exclusive, exhaustive choice among `options` from ceil(log2) unknown bits (surplus codes fold onto the last option)"""
+    nb = max(1, (len(options) - 1).bit_length())
+    bits = [var('%s%d' % (prefix, i)) for i in range(nb)]
+    guards = []
+    for code in range(1 << nb):
+        guards.append(b_and(*[(bits[i] if (code >> i) & 1 else b_not(bits[i])) for i in range(nb)]))
+    sel = []
+    for k in range(len(options)):
+        g = guards[k] if k < len(options) - 1 else b_or(*guards[k:])
+        sel.append(g)
+    return sel
+
+
+def unique_table_step(k=3):
+    """Pre-state: an ARBITRARY pool of k non-terminal nodes (each live or collected, arbitrary variable, arbitrary children among
+    the terminals and lower-numbered nodes) satisfying the representation invariant I; step: BDDNonTerminalNode(var, low, high)
+    with arbitrary arguments among the live nodes; post: the specification of hash-consing and I again.  Run WITHOUT functional
+    reduction (about 30 unknowns); the solver decides the raw circuits.  Garbage collection enters through the WeakSet contract:
+    a collected node is absent from every parent set (so 'live' bits gate parent-set membership)."""
+    import importlib
+    BB = importlib.import_module('pyModelChecking.BDD.BDD')
+    see.reset()
+    t0 = time.time()
+    vm = VM(MODS, max_unroll=16, check_unroll=False)
+    ctx, fr = harness_ctx(vm)
+    VARS = ['a', 'b', 'c']
+    T0, T1 = MObj(BB.BDDTerminalNode), MObj(BB.BDDTerminalNode)
+    T0.attrs['value'], T1.attrs['value'] = False, True
+    nodes = [MObj(BB.BDDNonTerminalNode) for _ in range(k)]
+    live = [var('live%d' % i) for i in range(k)]
+    objs = [T0, T1] + nodes
+    lowsel, highsel, varsel = [], [], []
+    for i, n in enumerate(nodes):
+        opts = [T0, T1] + nodes[:i]
+        ls = bits_choice('lo%d_' % i, opts)
+        hs = bits_choice('hi%d_' % i, opts)
+        vs = bits_choice('v%d_' % i, VARS)
+        lowsel.append(dict(zip(map(id, opts), ls)))
+        highsel.append(dict(zip(map(id, opts), hs)))
+        varsel.append(vs)
+        n.attrs['low'] = choice(list(zip(ls, opts)))
+        n.attrs['high'] = choice(list(zip(hs, opts)))
+        n.attrs['var'] = choice(list(zip(vs, VARS)))
+    # parent sets per the invariant I3 (and the WeakSet contract: only live parents are members)
+    for c in objs:
+        fl, fh = MSet(), MSet()
+        for i, n in enumerate(nodes):
+            fl.put(n, b_and(live[i], lowsel[i].get(id(c), False)))
+            fh.put(n, b_and(live[i], highsel[i].get(id(c), False)))
+        c.attrs['f_low'], c.attrs['f_high'] = fl, fh
+    # invariant I1, I2 and liveness closure
+    inv = []
+    for i in range(k):
+        same_child = b_or(*[b_and(lowsel[i].get(id(c), False), highsel[i].get(id(c), False)) for c in objs])
+        inv.append(b_or(b_not(live[i]), b_not(same_child)))
+        for j in range(i):
+            inv.append(b_or(b_not(live[i]), b_not(b_or(lowsel[i].get(id(nodes[j]), False), highsel[i].get(id(nodes[j]), False))), live[j]))   # children of live nodes are live
+            same_var = b_or(*[b_and(varsel[i][v], varsel[j][v]) for v in range(3)])
+            same_low = b_or(*[b_and(lowsel[i].get(id(c), False), lowsel[j].get(id(c), False)) for c in objs])
+            same_high = b_or(*[b_and(highsel[i].get(id(c), False), highsel[j].get(id(c), False)) for c in objs])
+            inv.append(b_not(b_and(live[i], live[j], same_var, same_low, same_high)))
+    # arguments
+    asel_l = bits_choice('al_', objs)
+    asel_h = bits_choice('ah_', objs)
+    asel_v = bits_choice('av_', VARS)
+    for x, sel in ((0, asel_l), (1, asel_h)):
+        for i in range(k):
+            inv.append(b_or(b_not(sel[2 + i]), live[i]))              # arguments are live nodes
+    a_low, a_high, a_var = choice(list(zip(asel_l, objs))), choice(list(zip(asel_h, objs))), choice(list(zip(asel_v, VARS)))
+    # snapshot of what must not change
+    snap_attr = {(i, a): nodes[i].attrs[a] for i in range(k) for a in ('var', 'low', 'high')}
+    snap_sets = {(id(c), w, id(n)): c.attrs[w].get(n) for c in objs for w in ('f_low', 'f_high') for n in nodes}
+    res = ctx.call(BB.BDDNonTerminalNode, [a_var, a_low, a_high], {})
+    excg = exc_guard(fr)
+    unw = unwind_guard(vm)
+    t1 = time.time()
+    # ---- specification
+    args_same = b_or(*[b_and(asel_l[x], asel_h[x]) for x in range(len(objs))])
+    match = [b_and(live[i], b_or(*[b_and(asel_v[v], varsel[i][v]) for v in range(3)]),
+                   b_or(*[b_and(asel_l[x], lowsel[i].get(id(objs[x]), False)) for x in range(len(objs))]),
+                   b_or(*[b_and(asel_h[x], highsel[i].get(id(objs[x]), False)) for x in range(len(objs))])) for i in range(k)]
+    exists = b_or(*match)
+    is_obj = lambda o: fold_b(res, lambda r: r is o)
+    fresh_alts = [(g, r) for (g, r) in alts_of(res) if isinstance(r, MObj) and not any(r is o for o in objs)]
+    is_fresh = b_or(*[g for g, r in fresh_alts])
+    bad = [excg, unw]
+    # P1
+    bad.append(b_and(args_same, b_not(b_or(*[b_and(asel_l[x], is_obj(objs[x])) for x in range(len(objs))]))))
+    # P2
+    for i in range(k):
+        bad.append(b_and(b_not(args_same), match[i], b_not(is_obj(nodes[i]))))
+    # P3
+    bad.append(b_and(b_not(args_same), b_not(exists), b_not(is_fresh)))
+    bad.append(b_and(is_fresh, b_or(args_same, exists)))
+    for (g, r) in fresh_alts:
+        okv = fold_b(r.attrs.get('var'), lambda v: fold_b(a_var, lambda w: v == w))
+        okl = fold_b(r.attrs.get('low'), lambda v: fold_b(a_low, lambda w: v is w))
+        okh = fold_b(r.attrs.get('high'), lambda v: fold_b(a_high, lambda w: v is w))
+        reg_l = b_or(*[b_and(asel_l[x], objs[x].attrs['f_low'].get(r)) for x in range(len(objs))])
+        reg_h = b_or(*[b_and(asel_h[x], objs[x].attrs['f_high'].get(r)) for x in range(len(objs))])
+        bad.append(b_and(g, b_not(b_and(okv, okl, okh, reg_l, reg_h))))
+        # the new node is registered nowhere else
+        for x, c in enumerate(objs):
+            bad.append(b_and(g, c.attrs['f_low'].get(r), b_not(asel_l[x])))
+            bad.append(b_and(g, c.attrs['f_high'].get(r), b_not(asel_h[x])))
+    # P5: the pool itself is untouched
+    for (i, a), v in snap_attr.items():
+        if nodes[i].attrs[a] is not v:
+            bad.append(True)
+    for c in objs:
+        for w in ('f_low', 'f_high'):
+            for n in nodes:
+                bad.append(b_xor(c.attrs[w].get(n), snap_sets[id(c), w, id(n)]))
+    encoded = sorted(vm.encoded)
+    d = Decider(timeout_ms=900000)
+    d.assume(b_and(*inv))
+    r = d.violated(*[b for b in bad if b is not False])
+    rec = dict(kind='unique-table step', k=k, verdict=r, encode_s=round(t1 - t0, 2), exc=exc_kinds(fr), encoded=encoded, unknowns=len(see.VAR_NAMES))
+    if r == 'sat':
+        rec['model'] = d.model_of(['(or false %s)' % ' '.join(d.term(b) for b in bad if b is not False)])
+    rec['twin'] = d.holds(is_fresh)                       # some pre-state leads to an allocation
+    rec['twin_reuse'] = d.holds(b_not(args_same), exists)     # some pre-state finds an isomorphic node
+    rec['twin_inv'] = d.holds()
+    rec.update(d.stats())
+    d.close()
+    return rec
